@@ -26,7 +26,7 @@ const verifDir = "/verif"
 var harnessDecl = regexp.MustCompile(`(?m)^func (H_\w+)\(\)`)
 
 var initPkgOrder = []string{
-	"math/bits", "math", "unicode/utf8", "unicode", "errors", "strconv", "strings", "bytes", "sort", "slices", "encoding/json",
+	"math/bits", "math", "unicode/utf8", "unicode", "errors", "io", "bufio", "strconv", "strings", "bytes", "sort", "slices", "encoding/json",
 }
 
 func goEnv() []string {
